@@ -77,6 +77,27 @@ theorem value_sources_one_line (n : Nat) (u d : Str) (hu : 13 ∉ u ∧ 10 ∉ u
   · have h1 : 13 ∉ sha1Prefix ∧ 10 ∉ sha1Prefix := by decide
     simp [hd.1, hd.2, h1.1, h1.2]
 
+/-- **read_cdx_columns_one_line** — the value source of `WARC-Refers-To` (--warc-dedup: CDX index ->
+`read_cdx` -> URL table -> `_record_revisit`): whatever terminates an index line (LF, CRLF, or nothing at
+the end of the file), no column `read_cdx` returns for a line holds CR or LF, so a record id taken
+from the index stays on one header line. -/
+theorem read_cdx_columns_one_line (sep : Nat) (body term : Str) (hb : 13 ∉ body ∧ 10 ∉ body)
+    (ht : term = [] ∨ term = [10] ∨ term = [13, 10]) :
+    ∀ col ∈ readCdxLine sep (body ++ term), 13 ∉ col ∧ 10 ∉ col := by
+  intro col hcol
+  have hws : ∀ c ∈ term, isSpace c = true := by
+    rcases ht with rfl | rfl | rfl <;> intro c hc <;> simp at hc
+    · subst hc; decide
+    · rcases hc with rfl | rfl <;> decide
+  constructor
+  · intro h
+    exact hb.1 (mem_strip_append_ws body term 13 hws (mem_splitOn1 _ sep col 13 hcol h))
+  · intro h
+    exact hb.2 (mem_strip_append_ws body term 10 hws (mem_splitOn1 _ sep col 10 hcol h))
+
+example : readCdxLine 32 (lit "http://a/ 1 t/s 200 D 5 0 f.warc <urn:uuid:1>\r\n") =
+    [lit "http://a/", lit "1", lit "t/s", lit "200", lit "D", lit "5", lit "0", lit "f.warc", lit "<urn:uuid:1>"] := by decide
+
 /-- **content_length_is_block_length** — after `set_length_and_maybe_checksums` (either
 branch) the Content-Length field is the decimal length of the block, the block is untouched,
 and the decimal string reads back as that number. -/
